@@ -302,7 +302,7 @@ DENSITY_CLASSES = {
 
 def decorate_materials(deck, rng, classes_for=None, spellings='all'):
     """Give every non-filled cell a material (0, 1, 2) and a density spelling."""
-    classes_for = classes_for or {1: [rng.choice(['A', 'A2']), 'B', 'G'], 2: ['C', 'E', 'F']}
+    classes_for = classes_for or {1: [rng.choice(['A', 'A2']), 'B', 'G'], 2: ['C', 'E', 'F', 'B']}     # B: shared by both materials
     values = []
     for c in deck['cells']:
         if c['fill'] or (c['lat'] and c['lunivs']):
